@@ -64,6 +64,13 @@ class UserSpec:
         return best
 
 
+# the supported command set (25 verbs): everything else is an unsupported verb - also what a later version of the
+# server may have added to its table
+KNOWN_VERBS = ("abor", "appe", "cdup", "cwd", "dele", "epsv", "list", "mkd", "mlsd", "mlst", "pass",
+               "pasv", "pbsz", "prot", "pwd", "quit", "rest", "retr", "rmd", "rnfr", "rnto", "stor",
+               "syst", "type", "user")
+
+
 class SessionModel:
     def __init__(self, users, tree, block=None):
         self.users = {u.login: u for u in users}
@@ -131,9 +138,7 @@ class SessionModel:
         cmd, _, arg = s.partition(" ")
         # (only the 26 ascii letters have a second spelling: a verb with the kelvin sign in it is another verb)
         verb = cmd.lower() if cmd.isascii() else cmd
-        known = verb in ("abor", "appe", "cdup", "cwd", "dele", "epsv", "list", "mkd", "mlsd", "mlst", "pass",
-                         "pasv", "pbsz", "prot", "pwd", "quit", "rest", "retr", "rmd", "rnfr", "rnto", "stor",
-                         "syst", "type", "user")
+        known = verb in KNOWN_VERBS
         if not known:
             # the restart offset applies to the immediately following command only - whatever that command is
             self.rest, self.rest_unknown = 0, False
